@@ -334,8 +334,8 @@ pub fn ring_ff5_gcd(s: &mut Src) -> R {
 
 /// Ratio<i32> products, quotients, inverses and negatives with operands of any size (BOUNDED, sampled; native only): whenever the exact result
 /// (computed in i128) is representable, the operation returns it in lowest terms with a positive denominator -- the cross-cancellation of
-/// `*` / `/` exists precisely so that no intermediate value exceeds the result.  (Sums are excluded: their intermediate a(d/g) + c(b/g) can
-/// exceed a representable result, a limitation of machine integers that is not claimed.)
+/// `*` / `/` exists precisely so that no intermediate value exceeds the result.  (Sums are excluded: whether their intermediate a(d/g) + c(b/g) can
+/// exceed a representable result was not examined and is not claimed.)
 pub fn ring_ratio_mul_limits(s: &mut Src) -> R {
     use yui::Ratio;
     let (a, b, c, d) = (s.i32(), s.i32(), s.i32(), s.i32());
